@@ -399,6 +399,8 @@ P2TaskOK(d, t) ==
            /\ \A p \in Range(t.dynamic) : p >= DataPortMin /\ p \notin static /\ p \in TaskPorts(t))
      /\ (HasF(t, "control") /\ d.controllable =>
            /\ t.control >= CtlPortMin /\ t.control \notin static /\ t.control \in TaskPorts(t)
+           \* besides the control port there is one port per TCP channel: as many requested as used
+           /\ Cardinality(extra \ {t.control}) = d.tcp_inbound
            /\ (HasF(t, "dynamic") => t.control \notin Range(t.dynamic)))
 P2Bad(offers, descs, accepts) ==
   {TaskAt(accepts, ij).desc : ij \in
@@ -649,13 +651,27 @@ SharedRoundCat ==
   {[offers |-> Pick(OfferCat, oi), descs |-> ds, exec |-> Exec1] :
      oi \in {<<1, 2>>, <<2, 3>>, <<1, 2, 3>>, <<2>>, <<1>>}, ds \in SharedDescSets}
 
+\* offers whose ports lie entirely or partly at or above the control-port threshold: only high ports (the stock Mesos
+\* range), fewer low ports than a task has TCP channels, low + high; controllable tasks with 1..3 inbound TCP
+\* channels, alone and several on one offer: dynamic ports then come from >= 30000 too and must stay distinct from the
+\* control port (as many ports requested as used)
+PortOfferCat ==
+  << [id |-> "oH", host |-> "hH", attrs |-> [machine_id |-> "hH"], cpus |-> 4000, mem |-> 2048, ports |-> <<<<31000, 31009>>>>],
+     [id |-> "oF", host |-> "hF", attrs |-> [machine_id |-> "hF"], cpus |-> 4000, mem |-> 2048, ports |-> <<<<9000, 9000>>, <<31000, 31004>>>>],
+     [id |-> "oL", host |-> "hL", attrs |-> [machine_id |-> "hL"], cpus |-> 4000, mem |-> 2048, ports |-> <<<<9000, 9001>>, <<30000, 30001>>, <<31000, 31001>>>>] >>
+PD(id, n) == [id |-> id, constraints |-> <<>>, cpu |-> 100, mem |-> 32, static_expr |-> "", tcp_inbound |-> n, ipc_inbound |-> 0, controllable |-> TRUE]
+PortDescCat == << PD("p1", 1), PD("p2", 2), PD("p3", 3) >>
+PortRoundCat ==
+  {[offers |-> Pick(PortOfferCat, oi), descs |-> Pick(PortDescCat, di), exec |-> Exec1] :
+     oi \in {<<1>>, <<2>>, <<3>>} \cup (IF Thorough THEN {<<1, 2>>, <<2, 3>>} ELSE {}), di \in IncSeqs(3, 3)}
+
 RoundCat ==
   {[offers |-> Pick(OfferCat, oi), descs |-> Pick(DescCat, di), exec |-> e] :
      oi \in IncSeqs(Len(OfferCat), 2), di \in IncSeqs(Len(DescCat), IF Thorough THEN 3 ELSE 2),
      e \in IF Thorough THEN {NoExec, Exec1} ELSE {Exec1}}
 
 RoundInit == /\ c = NoCase
-             /\ \E x \in RoundCat \cup SharedRoundCat : rd = RoundStart(x.offers, x.descs, x.exec)
+             /\ \E x \in RoundCat \cup SharedRoundCat \cup PortRoundCat : rd = RoundStart(x.offers, x.descs, x.exec)
 RoundNext == ((\E oid \in Ids(rd.offers) : ProcessOffer(oid)) \/ Finish) /\ UNCHANGED c
 RoundSpec == RoundInit /\ [][RoundNext]_<<c, rd>>
 
